@@ -10,10 +10,21 @@
      quantifies over regular text only): those are decided by the correspondence.
    - exactly one entry per visible layer, for every tree, flag combination and state;
    - the verbose rendering ends with the Go type of every entry, in entry order.
+   - the exact LAYOUT of %+v (Proofs/VerboseLayout.v): first line, one entry per layer labelled
+     "(1)" / "Wraps: (k)" with the multi-cause indentation, then the 'Error types' line in entry
+     order (C09_layout); each layer's entry carries its type, its stack and -- for library
+     wrappers -- exactly the detail text its kind prints (C09_entries, C09_own_detail_visible);
+     %+v starts with the Error() text for plain trees whose short entries are settled
+     (C09_verbose_starts_with_text; the unconditional statement is false: three witnesses in
+     VerboseLayout.v, the recorded multi-line finding among them);
+     the entries follow the ENGINE's order (a node, its multi-cause branches last to first,
+     then its cause), a permutation of the traversal order and equal to it on chain-like trees
+     (C09_entry_order; witness that they differ in general).
    fmt's own verbs (%q %x %X, width, precision, flags) are applied by fmt to that
    text: not modelled, decided by the implementation-side relation. *)
 From Errv Require Import Base.Str Redact.Markers Redact.Buffer Model.Err Model.Sem Model.Report
-     Proofs.EngineFacts Proofs.ShortText.
+     Proofs.EngineFacts Proofs.ShortText Proofs.HiddenVisible Proofs.VerboseLayout.
+From Coq Require Import Permutation.
 
 Theorem C09_v_s : forall e, plain_tree e = true -> fmt_plain_short e = error_text e.
 Proof. exact fmt_plain_short_is_error_text. Qed.
@@ -59,6 +70,45 @@ Proof.
   rewrite !app_comm_cons, !app_assoc. reflexivity.
 Qed.
 Print Assumptions C09_types_line.
+
+(* ---- exact layout of the verbose rendering, every error, plain and redactable ---- *)
+Theorem C09_layout : forall e red,
+  final_verbose (sem e) red =
+  single_line red (ventries e red) [] ++
+  nl :: join [nl] (entry_lines red (ventries e red) 1) ++
+  nl :: lit "Error types:" ++
+  List.concat (type_items_of (List.map go_type_string (engine_order e)) 1).
+Proof. exact verbose_layout. Qed.
+Print Assumptions C09_layout.
+
+Theorem C09_entries : forall e red,
+  Forall2 (own_clause true red) (ventries e red) (engine_order e) /\
+  List.map fe_depth (ventries e red) = depths e false 0%nat.
+Proof. exact verbose_entries_spec. Qed.
+Print Assumptions C09_entries.
+
+Theorem C09_entry_order : forall e,
+  Permutation (engine_order e) (visit_all e) /\
+  (chainlike e = true -> engine_order e = visit_all e).
+Proof. intro e. split; [apply engine_order_perm | apply engine_order_chainlike]. Qed.
+Print Assumptions C09_entry_order.
+
+(* a library wrapper's own detail is shown in its own numbered entry *)
+Theorem C09_own_detail_visible : forall e red p i w c ws c0 t,
+  nth_error (engine_order e) p = Some (Wrap i w c) ->
+  wrap_detail_writes w = Some ws ->
+  wrap_shown w red (dlayout ws) = c0 :: t -> (c0 =? nl) = false ->
+  infix_of (lit "(" ++ dec_of_N (N.of_nat (S p)) ++ lit ") " ++
+            (if wrap_red w || negb red then c0 :: t else escape_bytes (c0 :: t)))
+           (final_verbose (sem e) red).
+Proof. exact wrapper_detail_visible. Qed.
+Print Assumptions C09_own_detail_visible.
+
+Theorem C09_verbose_starts_with_text : forall e,
+  plain_tree e = true -> forallb settled (sentries e false) = true ->
+  exists rest, fmt_plain_verbose e = error_text e ++ nl :: lit "(1)" ++ rest.
+Proof. exact plain_verbose_starts_with_error_text. Qed.
+Print Assumptions C09_verbose_starts_with_text.
 
 Example C09_example :
   let e := Wrap 101%positive (WHint (lit "h")) (Leaf 100%positive (LErrString (lit "boom"))) in
